@@ -273,7 +273,8 @@ def run_case(case):
             top, _ = build.build(multi)
             objs = dict(zip(refs, top.get_children()))
             try:
-                bg = BIOGEME(build.database(spec), objs, parameters=Parameters())
+                dbh = build.database(spec)
+                bg = BIOGEME(dbh, objs, parameters=Parameters())
                 free = bg.free_beta_names
                 sim = bg.simulate({n: bv[n] for n in free})
                 rec.c('side_by_side_runs')
@@ -287,6 +288,28 @@ def run_case(case):
                 # history: one of the formulas evaluated directly (ids re-prepared and restored), then simulate again
                 if case['i'] % 2 == 0:
                     nm0 = next(iter(refs))
+                    tol0 = _tol(exprs.ops_in(forms[nm0], spec['shared']))
+                    # on the very same Database object the model was built on (ids already attached for it):
+                    # by-name override, then the default values again, then changed initial values, then the
+                    # columns of that same object put in another order
+                    free0 = [b_ for b_ in sorted(bv) if spec['betas'][b_][1] == 0]
+                    rr2 = random.Random(case['i'] * 31 + 7)
+                    over2 = {b_: round(bv[b_] + rr2.uniform(-0.3, 0.3), 3) for b_ in free0 if rr2.random() < 0.7}
+                    if over2:
+                        bvo = dict(bv)
+                        bvo.update(over2)
+                        jo = evalast.judge(forms[nm0], spec['data'], bvo, spec['shared'])
+                        if jo['ok']:
+                            vo2 = objs[nm0].get_value_c(database=dbh, prepare_ids=True, betas=over2)
+                            rec.ev()
+                            if not close(vo2, jo['value'], *tol0):
+                                viol('override-on-formula-owned-by-BIOGEME-differs', f'betas={over2}: {np.asarray(vo2).tolist()} vs {jo["value"].tolist()}')
+                    vd = objs[nm0].get_value_c(database=dbh, prepare_ids=True)
+                    rec.ev()
+                    rec.c('history_on_the_model_database')
+                    if not close(vd, refs[nm0], *tol0):
+                        viol('default-values-not-used-after-an-override-on-the-same-database',
+                             f'{np.asarray(vd).tolist()} vs {refs[nm0].tolist()}')
                     direct = objs[nm0].get_value_c(database=build.database(spec), prepare_ids=True)
                     rec.ev()
                     if not close(direct, refs[nm0], *_tol(exprs.ops_in(forms[nm0], spec['shared']))):
@@ -299,6 +322,28 @@ def run_case(case):
                             viol('simulate-changes-after-direct-evaluation-of-one-formula',
                                  f'formula {nm}: {sim2[nm].tolist()} vs {sim[nm].tolist()}', formulas=forms)
                             break
+                    # columns of the same Database object put in another order, then a direct evaluation
+                    cols2 = list(dbh.data.columns)
+                    rr2.shuffle(cols2)
+                    dbh.data = dbh.data[cols2]
+                    vc = objs[nm0].get_value_c(database=dbh, prepare_ids=True)
+                    rec.ev()
+                    if not close(vc, refs[nm0], *tol0):
+                        viol('value-changes-after-reordering-the-columns-of-the-same-database',
+                             f'columns {cols2}: {np.asarray(vc).tolist()} vs {refs[nm0].tolist()}')
+                    # new initial values through change_init_values, then a direct evaluation on the same database
+                    newv = {b_: round(bv[b_] + rr2.uniform(-0.2, 0.2), 3) for b_ in free0}
+                    if newv:
+                        bvn = dict(bv)
+                        bvn.update(newv)
+                        jn = evalast.judge(forms[nm0], spec['data'], bvn, spec['shared'])
+                        if jn['ok']:
+                            objs[nm0].change_init_values(newv)
+                            vn = objs[nm0].get_value_c(database=dbh, prepare_ids=True)
+                            rec.ev()
+                            if not close(vn, jn['value'], *tol0):
+                                viol('changed-initial-values-not-used-on-the-same-database',
+                                     f'{newv}: {np.asarray(vn).tolist()} vs {jn["value"].tolist()}')
             except BaseException as e:
                 viol(f'simulate-raises-{type(e).__name__}', f'{e}', formulas=forms)
 
@@ -385,7 +430,7 @@ def finalize(cov, tier):
     if holes > 0.25 * total:
         out.append(f'position sweep reached only {total - holes}/{total} (parent, slot, child) triples')
     for k in ('python_evaluator_compared', 'side_by_side_runs', 'dag_vs_tree_compared', 'handover_decoded',
-              'second_database_compared', 'simulate_after_direct_evaluation'):
+              'second_database_compared', 'simulate_after_direct_evaluation', 'history_on_the_model_database'):
         if cov.get(k, 0) == 0:
             out.append(f'monitor never evaluated: {k}')
     # keep the evidence readable: fold the per-triple / per-edge counters
